@@ -29,6 +29,7 @@ inductive Err where
   | KeyError
   | ZeroDivisionError
   | NotImplementedError
+  | ValueError
 deriving DecidableEq, Repr, Inhabited
 
 def Err.toStr : Err → String
@@ -36,6 +37,7 @@ def Err.toStr : Err → String
   | .KeyError => "KeyError"
   | .ZeroDivisionError => "ZeroDivisionError"
   | .NotImplementedError => "NotImplementedError"
+  | .ValueError => "ValueError"
 
 /-! ### plurality / approval, super-majority -/
 
@@ -46,6 +48,37 @@ def plurality (contest w l : String) (c : CVR) : Rat :=
 /-- L2186: `list(set(con.candidates) - set(winrs))` (a set: no duplicates; order is canonicalised by the harness) -/
 def losers (candidates winners : List String) : List String :=
   (candidates.filter (fun c => !winners.contains c)).eraseDups
+
+/-- Audit.py `make_plurality_assertions`, the two loops `for winr in winner: for losr in loser:` and the dict
+`assertions[winr + " v " + losr] = Assertion(...)`: the entries (key, winner, loser) in insertion order.  A pair whose
+key is already taken by the SAME pair (a candidate listed twice) replaces that entry in place, as a dict does; a pair
+whose key is taken by ANOTHER pair raises ValueError (repair of finding F30: before it, the later assertion silently
+replaced the earlier one and that pair was left unaudited). -/
+def pluralityPairsStep (acc : List (String × String × String)) (w l : String) :
+    Except Err (List (String × String × String)) :=
+  let key := w ++ " v " ++ l
+  match acc.find? (fun e => e.1 == key) with
+  | some e => if e.2.1 == w && e.2.2 == l then .ok acc else .error .ValueError
+  | none => .ok (acc ++ [(key, w, l)])
+
+def pluralityPairsRow (w : String) : List String → List (String × String × String) →
+    Except Err (List (String × String × String))
+  | [], acc => .ok acc
+  | l :: ls, acc =>
+    match pluralityPairsStep acc w l with
+    | .ok acc' => pluralityPairsRow w ls acc'
+    | .error e => .error e
+
+def pluralityPairsFrom (losers : List String) : List String → List (String × String × String) →
+    Except Err (List (String × String × String))
+  | [], acc => .ok acc
+  | w :: ws, acc =>
+    match pluralityPairsRow w losers acc with
+    | .ok acc' => pluralityPairsFrom losers ws acc'
+    | .error e => .error e
+
+def pluralityPairs (winners losers : List String) : Except Err (List (String × String × String)) :=
+  pluralityPairsFrom losers winners []
 
 /-- L2010-2011: `cands = loser.copy(); cands.append(winner)` -/
 def superCands (loser : List String) (winner : String) : List String := loser ++ [winner]
